@@ -133,6 +133,16 @@ def run_property(pid, module, tier="quick", repo="/repo", replay=None, write_evi
     R = Report(pid, tier, repo)
     rc = 0
     try:
+        # an evaluation that blows up (a term growing without bound on code the engine does not fold) must end as an analysis
+        # error of this run (exit 2), not take the machine down: the address space of the analysing process is capped
+        import resource
+        cap = int(os.environ.get("VERIF_MEM_GB", "6")) << 30
+        soft, hard = resource.getrlimit(resource.RLIMIT_AS)
+        if soft == resource.RLIM_INFINITY or soft > cap:
+            resource.setrlimit(resource.RLIMIT_AS, (cap, hard))
+    except Exception:
+        pass
+    try:
         prog = Program(repo)
         ctx = Ctx(prog, R, tier)
         module.run(ctx)
@@ -141,6 +151,8 @@ def run_property(pid, module, tier="quick", repo="/repo", replay=None, write_evi
         R.error("anchor", str(e))
     except RecursionError as e:
         R.error("engine", "recursion limit: %s" % e)
+    except MemoryError:
+        R.error("engine", "memory limit: the evaluation of this tree does not stay within the analysis memory cap")
     except Exception as e:  # a checker bug must never look like a violation
         tb = traceback.format_exc()
         R.error("engine", "%s: %s | %s" % (type(e).__name__, e, tb.strip().splitlines()[-3:]))
